@@ -26,7 +26,7 @@ TEXT={
  'C12':"Registry operations by one step from an arbitrary valid registry (invariant RR), per-key routing, round robin, and one full run of openReverseTunnel inspected at its two quiescent states.",
  'C13':"A protocol monitor over the carrier doubles of every harness: envelope/continuation shape, headers once and first, one close frame last, half-close/cancel at most once, no data after half-close, settings iff negotiated with id -1.",
  'C14':"Post-conditions of every harness: table entries removed, registry entries removed, every goroutine the library started has exited when the harness quiesces.",
- 'C15':"Bounded all-interleavings exploration (scheduler choices as decision variables of the symbolic executor) of the flow-control components and stream finish paths: no panic, no deadlock, locks released; only these thread sets, under sequential consistency - a fraction of the property as stated.",
+ 'C15':"Delay-bounded exploration of schedules (scheduler choices are decision variables of the symbolic executor; scheduling points before every synchronisation operation of the package and after every releasing one) for eight thread sets (sender/updater/canceller, receiver, revision-zero receiver, registry, concurrent RPC starts, client finish, server finish, channel close), plus lock-release post-conditions and the thread-safe carrier wrappers: no panic, no deadlock, no lock leak, no publication-order violation on any explored schedule. Under sequential consistency; no race detection in the race detector's sense - a fraction of the property as stated.",
  'C16':"RecvMsg look-ahead for non-streaming request/response over every queue script within bounds, second SendMsg refused on non-streaming sides, Invoke with 0/1/2 responses.",
  'C17':"Handler/caller contexts built by the real createStream/allocateStream/Serve carry tunnel metadata, carrier values and request metadata; accessor results are private copies under every single mutation.",
  'C18':"Differential check of timeoutFromHeaders (incl. strconv) against the gRPC wire specification for every header value up to the length bound, and createStream turning exactly that duration into the handler deadline.",
@@ -48,7 +48,7 @@ for p in props:
       "engine":"gosmt",
       "level_claimed":{"category":"model_checking","text":TEXT[pid]+" Bounded: a pass means the solver found no counterexample for any input/choice within the stated bounds (evidence lists them per harness); not a proof.","design_ref":"DESIGN.md section 3 (%s), section 9"%pid},
       "level_note":NOTE_COMMON+" Harnesses: "+", ".join(hs)+".",
-      "technique":"bounded symbolic execution of go/ssa of the real code + SMT (z3, cvc5 fallback); counterexamples replayed natively"
+      "technique":"bounded symbolic execution of the real code's go/ssa with SMT (z3 / cvc5) deciding every path condition and obligation; schedules (delay-bounded) and inputs are decision variables; counterexamples replayed natively before being reported"
     })
 m={"version":1,
  "setup_cmd":"cd /verif/engine && GOFLAGS=-mod=mod GOPROXY=off go build -o /verif/bin/gosmt ./cmd/gosmt",
